@@ -7,7 +7,7 @@ From Coq Require Import String.
 From Boltons Require Import Lib.Prelude Lib.C06_Text Spec.C06_Spec Model.C06_Model Gen.C06_Gen Gen.C06_Src
   Proofs.C06_SrcEq
   Proofs.C06_Codec Proofs.C06_Utf8 Proofs.C06_Quote Proofs.C06_Lists Proofs.C06_Round Proofs.C06_Legal
-  Proofs.C06_Ports Proofs.C06_NoAuth Proofs.C06_NoAuthMin Proofs.C06_Shape Proofs.C06_Parsed Proofs.C06_QuoteMin Proofs.C06_Parts Proofs.C06_RoundMin Proofs.C06_Total
+  Proofs.C06_Refine Proofs.C06_Ports Proofs.C06_NoAuth Proofs.C06_NoAuthMin Proofs.C06_Shape Proofs.C06_Parsed Proofs.C06_QuoteMin Proofs.C06_Parts Proofs.C06_RoundMin Proofs.C06_Total
   Proofs.C06_GenOk.
 Open Scope N_scope.
 
@@ -180,6 +180,30 @@ Print Assumptions C06_ports_wf.
 Example C06_ex_ports :
   forallb (fun p => port_wf (Some p)) [0; 1; 21; 22; 80; 443; 8080; 9418; 65535; 99999]%Z = true /\ port_wf None = true.
 Proof. vm_compute. split; reflexivity. Qed.
+
+(* REFINEMENT TO THE SPEC PREDICATE.  For a URL built with from_parts (any component texts the Spec's own
+   well-formedness test admits, a valid name/IPv4/IDN host and port), what the model computes - the
+   rendered text, URL() of it (observed through the same fields as Check.observe) and the second
+   rendering - satisfies exactly [roundtrip_ok], the predicate [holds] evaluates on the implementation's
+   observation of a KRound case.  So on every run where [agree] holds, the theorem is about the code. *)
+Theorem C06_round_case_ok : forall T O, tables_ok T = true ->
+  forall scheme host port user pw rest q frag ht b4 h2,
+  let nfc := o_nfc O in
+  let path := [] :: rest in
+  let u := from_parts scheme host port user pw path q frag in
+  nfc [] = [] -> (forall x, nfc (nfc x) = nfc x) -> (forall x, nfc x = [] -> x = []) ->
+  (forall x, all_scalar x = true -> all_scalar (nfc x) = true) ->
+  components_wf scheme user pw path q frag = true ->
+  host <> [] -> memN 58 host = false -> o_idna_enc O host = MOk ht ->
+  ht <> [] -> forallb (not_in [58; 64; 47; 63; 35]) ht = true -> legal (ok_regname false) ht = true ->
+  o_inet4 O ht = MOk b4 -> (if all_ascii ht then o_idna_dec O ht = MOk h2 else h2 = ht) ->
+  h2 <> [] -> memN 58 h2 = false -> o_idna_enc O h2 = MOk ht ->
+  port_wf port = true ->
+  exists full u',
+    to_text T O true u = MOk full /\ url_init T O full = MOk u' /\ to_text T O true u' = MOk full /\
+    roundtrip_ok nfc scheme user pw path q frag h2 full (Ok (observe_url T u')) (Ok full) = true.
+Proof. exact round_case_ok. Qed.
+Print Assumptions C06_round_case_ok.
 
 (* THE ROUND TRIP FOR IPv6 HOSTS: a host with a ':' (rendered in brackets whatever the family
    attribute says), none of ] @ / ? #, accepted by inet_pton(AF_INET6) *)
